@@ -571,6 +571,9 @@ type c16kOutcome struct {
 	// for the row tie: the single conflicting row before, the proposed row, the row after
 	Old, Prop []int
 	Note      string
+	// per value (round 5): what the statement did with it — 0 not stored (DO NOTHING hit, guard false, nothing assignable),
+	// 1 inserted, 2 an existing row updated — and the key of the row it landed in
+	Disp [][2]int
 }
 
 func c16kRefRun(p *C16KP) (out c16kOutcome) {
@@ -646,6 +649,7 @@ func c16kRefRun(p *C16KP) (out c16kOutcome) {
 		}
 		if len(cons) == 0 {
 			rows[prop[0]] = prop
+			out.Disp = append(out.Disp, [2]int{1, prop[0]})
 			continue
 		}
 		if rule == nil {
@@ -675,6 +679,7 @@ func c16kRefRun(p *C16KP) (out c16kOutcome) {
 			out.Old, out.Prop = append([]int(nil), old...), append([]int(nil), prop...)
 		}
 		if rule.Nothing {
+			out.Disp = append(out.Disp, [2]int{0, old[0]})
 			continue
 		}
 		// UpdateAll: gorm appends `col = excluded.col` for every inserted, assignable column (updated_at = now)
@@ -688,6 +693,7 @@ func c16kRefRun(p *C16KP) (out c16kOutcome) {
 		}
 		if len(ups) == 0 {
 			if rule.All {
+				out.Disp = append(out.Disp, [2]int{0, old[0]})
 				continue // nothing assignable: gorm degrades the rule to DO NOTHING
 			}
 			return c16kOutcome{Skip: true, Note: "DO UPDATE with an empty SET list"}
@@ -697,6 +703,7 @@ func c16kRefRun(p *C16KP) (out c16kOutcome) {
 			ok = ok && g.holds(old, prop)
 		}
 		if !ok {
+			out.Disp = append(out.Disp, [2]int{0, old[0]})
 			continue
 		}
 		nw := append([]int(nil), old...)
@@ -715,6 +722,7 @@ func c16kRefRun(p *C16KP) (out c16kOutcome) {
 			}
 		}
 		rows[old[0]] = nw
+		out.Disp = append(out.Disp, [2]int{2, old[0]})
 	}
 	out.Rows, out.Err = dump(), "ok"
 	return
